@@ -237,6 +237,7 @@ def hasIndex := binMarks hasIndexU
 def lengthU (v : Value) : Res Value :=
   match v.ty with
   | .tuple es => .ok (intVal es.length)
+  | .object ns _ _ => .ok (intVal ns.length)
   | _ =>
     if !v.isKnown then do
       let r ← v.range
